@@ -485,6 +485,46 @@ main(int argc, char **argv)
 					vf_stat("forged_bad", 1);
 				}
 			}
+			/* sequence numbers that differ from the right one only in a high bit; longer records: a wrong MAC / tag
+			   byte and (CBC) a wrong padding byte for plaintexts of 0, 1, 255, 256, 300, 4095, 16383 and 16384 bytes,
+			   each next to its conformant twin (the receiver has full-size buffers) */
+			{
+				static const int hb[4] = { 16, 32, 48, 63 };
+				static const size_t lens[8] = { 0, 1, 255, 256, 300, 4095, 16383, 16384 };
+				static unsigned char bigp[16384];
+				int q;
+				size_t li;
+				for (q = 0; q < 4; q ++) {
+					cs = base_cs; rm_forge_defaults(&fo); fo.use_seq = 1; fo.seq = base_cs.seq ^ ((uint64_t)1 << hb[q]);
+					if (base_cs.enc > 2 && base_cs.enc != 9) { fo.use_expl = 1; memset(fo.expl, 0, 8); fo.expl[7] = (unsigned char)base_cs.seq; }
+					fl = rm_seal(&cs, 23, plain, pl, &fo, &r, 1, work);
+					snprintf(fault_desc, sizeof fault_desc, "forged record sealed under the right sequence number with bit %d flipped", hb[q]);
+					judge(work, fl, 0, fl, 0, 0, &r);
+					vf_stat("forged_bad", 1);
+				}
+				if (RX->buf_len >= 16384 + 325) for (li = 0; li < 8; li ++) {
+					size_t L = lens[li], z;
+					int variant;
+					if ((li + (size_t)pi) % 2 && L > 300) continue;        /* the large ones for every second pair */
+					for (z = 0; z < L; z ++) bigp[z] = tp_stream_byte(RX->rx_key, z);
+					for (variant = 0; variant < 3; variant ++) {
+						cs = base_cs; rm_forge_defaults(&fo);
+						if (variant == 1) fo.bad_mac_index = (int)vf_below(&r, (uint32_t)(base_cs.enc <= 2 ? base_cs.mac_len : rm_tag_len(base_cs.enc)));
+						if (variant == 2) { if (base_cs.enc > 2) continue; fo.padlen = (int)(((base_cs.enc == 0 ? 8 : 16) - 1 - ((L + base_cs.mac_len) % (base_cs.enc == 0 ? 8 : 16))) + (base_cs.enc == 0 ? 8 : 16)); fo.bad_pad_index = (int)vf_below(&r, (uint32_t)fo.padlen + 1); }
+						fl = rm_seal(&cs, 23, bigp, L, &fo, &r, 1, work);
+						snprintf(fault_desc, sizeof fault_desc, "forged %zu-byte record, %s", L, variant == 0 ? "conformant" : variant == 1 ? "one wrong MAC/tag byte" : "one wrong padding byte");
+						if (variant == 0) {
+							if (L == 0 && base_cs.enc <= 2 && base_cs.version == 0x0301) { /* empty record: fine */ }
+							judge(work, fl, 0, (size_t)-1, 1, L, &r);
+							vf_stat("forged_conformant", 1);
+						} else {
+							judge(work, fl, 0, fl, 0, 0, &r);
+							vf_stat("forged_bad", 1);
+						}
+						vf_stat("forged_long_records", 1);
+					}
+				}
+			}
 			/* replay of a record of the handshake epoch is covered by 'replay'; here: a
 			   conformant record followed by its exact copy */
 			cs = base_cs; rm_forge_defaults(&fo);
